@@ -350,3 +350,109 @@ def _depends_only_on_field(body, op, field, depth=0):
         if not _depends_only_on_field(body, d["o"], field, depth + 1):
             return False
     return True
+
+
+# ------------------------------------------------------------------------------------------------ block exposure
+BUILDER_TYPES = ("gc::GcBuilder", "slice::GcSliceWithHeaderBuilder", "slice::GcSliceWithHeaderSliceBuilder",
+                 "slice::GcSliceBuilder", "slice::GcStrBuilder")
+POINTER_CTORS = ("gc::Gc::from_ptr", "gc::Gc::from_ptr_with_kind", "gc::Gc::from_thin_ptr_with_kind",
+                 "gc_weak::GcWeak::from_ptr", "gc_weak::GcWeak::from_ptr_with_kind")
+DISARMING = ("core::mem::manually_drop::ManuallyDrop::new", "core::mem::manually_drop::ManuallyDrop::take")
+
+
+def _builder_ty(prog, tid, depth=0):
+    """Is this (a reference to / a ManuallyDrop of) one of the builder types?"""
+    t = prog.ty(tid) if tid is not None else {}
+    if t.get("k") in ("ref", "ptr") and depth < 3:
+        return _builder_ty(prog, t.get("ty"), depth + 1)
+    if t.get("k") == "adt":
+        if t.get("def") in BUILDER_TYPES:
+            return True
+        if t.get("def", "").endswith("ManuallyDrop") and t.get("args") and depth < 3:
+            return _builder_ty(prog, t["args"][0].get("ty"), depth + 1)
+    return False
+
+
+def block_exposed_only_after_disarm(chk, prog, rule="block-exposed-only-after-disarm"):
+    """A block owned by a builder is released by the builder's Drop - on any unwinding out of the function that holds
+    it. A Gc / GcWeak to that block may therefore be made only once the builder can no longer release it: after it has
+    been disarmed (mem::forget, ManuallyDrop) or consumed by a completion function. A pointer made earlier and handed
+    to user code (a constructor callback) dangles when that code panics: the block goes back to the allocator inside
+    the mutation callback while a pointer obtained in it is still held."""
+    from gcv import coverage
+    n = 0
+    examined = 0
+    # pointer constructors by signature: crate functions that make a Gc / GcWeak out of a raw or GcPtr pointer
+    ctors = set(POINTER_CTORS)
+    for f in prog.f["fns"]:
+        ins = f.get("inputs") or []
+        out_s = (f.get("output") or {}).get("s", "")
+        if ins and out_s.startswith(("gc::Gc<", "gc_weak::GcWeak<")) and \
+                ins[0]["s"].startswith(("*const ", "*mut ", "gc_ptr::GcPtr<", "core::ptr::non_null::NonNull<")):
+            ctors.add(f["n"])
+    for key, body in prog.bodies.items():
+        if "promoted[" in key or not body.get("local"):
+            continue
+        argc = body.get("argc") or 0
+        holders = {i for i in range(1, argc + 1) if _builder_ty(prog, body["locals"][i])}
+        if not holders:
+            continue
+        examined += 1
+        defs = coverage._defs(body)
+        dom = None
+        exposures = []          # (block, line, operand, what)
+        for bi, bb in enumerate(body["blocks"]):
+            if bb.get("c"):
+                continue
+            for st in bb["s"]:
+                if st["k"] == "assign" and st["r"]["k"] == "agg" and st["r"]["ak"].get("def") in ("gc::Gc", "gc_weak::GcWeak"):
+                    for o in st["r"]["ops"]:
+                        exposures.append((bi, st.get("l"), o, st["r"]["ak"]["def"]))
+            t = bb["t"]
+            if t and t["k"] == "call" and t["args"]:
+                f = t["f"]
+                r = f.get("resolved")
+                name = norm(r["def"]) if r else norm(f.get("def", ""))
+                if name in ctors:
+                    exposures.append((bi, t.get("l"), t["args"][0], name))
+        if not exposures:
+            continue
+        # disarming calls: mem::forget(builder)
+        forgets = {}
+        for bi, bb in enumerate(body["blocks"]):
+            t = bb["t"]
+            if t and t["k"] == "call" and t["args"] and norm((t["f"].get("resolved") or t["f"]).get("def", "")) == "core::mem::forget":
+                for (r0, acc, fl) in coverage.chains_of(prog, body, defs, t["args"][0]):
+                    if r0 in holders and not acc:
+                        forgets.setdefault(r0, set()).add(bi)
+        for (bi, line, op, what) in exposures:
+            live = set()
+            for (r0, acc, fl) in coverage.chains_of(prog, body, defs, op):
+                if r0 not in holders:
+                    continue
+                consumed = False
+                for a in acc:
+                    if a in DISARMING:
+                        consumed = True
+                    fs = prog.fn_n.get(a)
+                    if fs and (fs[0].get("inputs") or []):
+                        t0 = prog.ty(fs[0]["inputs"][0]["ty"])
+                        if t0.get("k") == "adt" and t0.get("def") in BUILDER_TYPES:
+                            consumed = True     # a completion function took the builder by value
+                if not consumed:
+                    live.add(r0)
+            if not live:
+                continue
+            n += 1
+            if dom is None:
+                dom = cfg.dominators(body, unwind=False)
+            bad = sorted(h for h in live if not any(fb in dom[bi] and fb != bi for fb in forgets.get(h, ())))
+            chk.inst(rule, "%s:%s" % (norm(body["def"]), what.split("::")[-1]), not bad,
+                     detail="`%s` makes a %s pointer to the block of a builder that can still release it (line %s: the "
+                            "builder is neither forgotten nor consumed before): if code run afterwards unwinds, the "
+                            "builder's Drop gives the block back to the allocator while the pointer is held" % (
+                                norm(body["def"]), what, line),
+                     loc="%s:%s" % (body["span"]["f"], line), sample={"function": norm(body["def"]), "pointer": what})
+    chk.floor("functions-holding-a-builder", examined, 20)
+    chk.extra["builder_block_exposures"] = {"functions_holding_a_builder": examined, "exposures_of_a_held_block": n,
+                                            "pointer_constructors": sorted(ctors)}
